@@ -29,11 +29,13 @@ Record astore := mkStore {
   st_mo : vv;                     (* modification_order *)
   st_sync : vv;                   (* sync.happens_before *)
   st_seen : list (option nat);    (* first_seen: None = u16::MAX *)
-  st_seqcst : bool
+  st_seqcst : bool;
+  st_id : nat;                    (* sequence number: State::cnt when the store was made *)
+  st_rmw_src : option (nat * nat) (* store half of an RMW: slot and id of the store it read *)
 }.
 
 Definition seen_new : list (option nat) := repeat None MAX_THREADS.
-Definition store_default : astore := mkStore 0%N vv_new vv_new vv_new seen_new false.
+Definition store_default : astore := mkStore 0%N vv_new vv_new vv_new seen_new false 0 None.
 
 Record atomic_state := mkAtomic {
   at_loaded : vv; at_unsync_loaded : vv; at_stored : vv; at_unsync_mut : vv;
